@@ -46,6 +46,9 @@ var zzC01Sinks = []string{
 	/* 21 */ `<div><template include="s2.vuego"><template include="c.vuego" :p="val" q="{{ val }}"></template></template></div>`,
 	/* 22 */ `<div><template include="s2.vuego"><b :title="val">{{ val }}</b></template></div>`,
 	/* 23 */ `<template include="c.vuego" :p="val" q="{{ val }}"></template>`,
+	/* 24 */ `<p v-text="val" v-show="no"></p><p v-text="val" v-show="ok" class="{{ w }}"></p>`,
+	/* 25 */ `<p v-text="val" :title="val" v-show="no" data-w="{{ w }}"></p>`,
+	/* 26 */ `<ul><li v-for="it in items" v-text="it" v-show="no"></li></ul><q v-if="ok" v-text="val" v-show="no"></q>`,
 }
 
 func zzC01FS() *zzFS {
